@@ -4,6 +4,8 @@ V = os.path.dirname(os.path.dirname(os.path.abspath(__file__)))
 ALL = ['C%02d' % i for i in range(1, 21)]
 TECH = 'bounded symbolic execution of the real go/ssa (and clang LLVM-IR) of /repo in our own executor; every assertion decided by z3 over all inputs within the stated bounds; counterexamples replayed natively'
 CHECKS = {
+ 'C05': dict(design='6.5', text='Bounded symbolic model checking of the BLS decoders through the cgo boundary: the Go wrappers (go/ssa) and the repository C glue (clang LLVM-IR: E1/E2/Fp/Fp2/Fr read and write) are executed on fully symbolic byte strings of the exact lengths and on every other length in the bound; z3 decides that acceptance implies re-encoding to exactly the input, that the accepted private scalars are exactly [1, r-1] (schoolbook reference), the rejection class, and the identity flag.',
+             note='Trusted: BLST field primitives as contracts (exact add/sub/neg/compare; uninterpreted Montgomery product, square root, sign with field axioms), subgroup check as an uninterpreted predicate, clang -O0 IR standing for the gcc build (counterexamples are replayed on the real build). ECDSA decoders and the G2 coefficient order versus the cited format are not covered yet.'),
  'C13': dict(design='6.13', text='Bounded symbolic model checking of hash/*.go from the real constructors: for each (fill level, write length) pair and each API sequence the digest bytes produced by the sponge driver, KMAC framing and SHA-2 wrappers are proved equal, for all message/key contents, to references written from FIPS 202 and SP 800-185 over the same uninterpreted permutation / cSHAKE / SHA-2 stream function; left_encode/right_encode for every 64-bit value, bytepad for every length up to the bound.',
              note='Trusted: Keccak-f[1600] (uninterpreted; the amd64 assembly is outside), SHA-2 compression and cSHAKE internals (absorb-stream model), go/ssa + executor. Bounds: lengths as listed in evidence; contents unbounded (symbolic).'),
  'C14': dict(design='6.14', text='Bounded symbolic model checking of random/chacha20.go together with the real buffering code of x/crypto/chacha20: seeds, customizers and buffer contents are symbolic, read-size sequences come from a boundary set, the restore point is a symbolic 64-bit counter. z3 decides that every output byte is the byte of the RFC 8439 stream position it should be, relative to an uninterpreted block function.',
